@@ -9,7 +9,7 @@ os.makedirs(dst, exist_ok=True)
 for f in ("patch.diff", "demo.rs", "notes.md"):
     shutil.copy(os.path.join(src, f), os.path.join(dst, f))
 notes = open(os.path.join(src, "notes.md")).read()
-meta = {"id": name, "base_commit": "12937b3", "breaks_property": prop, "origin": "fresh sub-agent given only the property text and a scratch worktree (later rounds: asked for changes harder to notice than the earlier ones)",
+meta = {"id": name, "base_commit": "8def960", "breaks_property": prop, "origin": "fresh sub-agent given only the property text and a scratch worktree (later rounds: asked for changes harder to notice than the earlier ones)",
         "needs_to_manifest": " ".join(notes.split())[:600],
         "confirmed": {"how": "tools/verify_seeded.sh in a scratch worktree of /repo HEAD: patch applies, `cargo test --offline` (187 + doc tests) passes with it, demo.rs as tests/demo.rs fails with it and passes without",
                       "result": "CONFIRMED"},
